@@ -29,6 +29,23 @@ Proof. intros [[] [] [] [] [] [] [] []]; vm_compute; reflexivity. Qed.
 Lemma buffer_cleaned_checked : forall c fail ff, buffer_cleaned c fail ff = true.
 Proof. intros [[] [] [] [] [] [] [] []] [[]|] [[]|]; vm_compute; reflexivity. Qed.
 
+(* the same as ONE boolean, checked on every combination by computation; the readable statement below is
+   read off it without any further case analysis *)
+Definition buffer_unfold_b (c : cfg) (fail : option point) (ff : option fpoint) : bool :=
+  let tr := fst (run_mapping c fail ff) in
+  has_eff 3 tr && has_eff 10 tr && before 3 10 tr &&
+  implb (body_raised c fail) (before 12 10 tr && before 13 10 tr && implb (has_eff 19 tr) (before 10 19 tr) &&
+                              implb (fin_quiet c ff) (has_eff 19 tr)) &&
+  implb (has_tmp c) (before 10 14 tr) &&
+  implb (has_eff 16 tr) (before 10 16 tr) && implb (has_eff 17 tr) (before 10 17 tr) &&
+  implb (has_eff 18 tr) (before 10 18 tr) && implb (has_eff 20 tr) (before 10 20 tr) &&
+  implb (fin_quiet c ff) (implb (has_log_path c) (has_eff 16 tr) && implb (has_json c) (has_eff 17 tr) &&
+                          implb (has_hdf5 c) (has_eff 18 tr)).
+Lemma buffer_unfold_checked : forall c fail ff, buffer_unfold_b c fail ff = true.
+Proof. intros [[] [] [] [] [] [] [] []] [[]|] [[]|]; vm_compute; reflexivity. Qed.
+Lemma implb_elim (a b : bool) : implb a b = true -> a = true -> b = true.
+Proof. destruct a, b; cbn; congruence. Qed.
+
 Lemma buffer_cleaned_unfold : forall c fail ff,
   let tr := fst (run_mapping c fail ff) in
   has_eff 3 tr = true /\ has_eff 10 tr = true /\ before 3 10 tr = true /\
@@ -46,7 +63,21 @@ Lemma buffer_cleaned_unfold : forall c fail ff,
    (has_json c = true -> has_eff 17 tr = true) /\
    (has_hdf5 c = true -> has_eff 18 tr = true)).
 Proof.
-  intros [[] [] [] [] [] [] [] []] [[]|] [[]|]; vm_compute; repeat split; intros; try reflexivity; discriminate.
+  intros c fail ff tr. pose proof (buffer_unfold_checked c fail ff) as H. unfold buffer_unfold_b in H.
+  fold tr in H.
+  repeat match type of H with (_ && _) = true => apply andb_true_iff in H; destruct H as [H ?] end.
+  repeat match goal with X : implb ?a ?b = true |- _ => pose proof (implb_elim a b X); clear X end.
+  repeat match goal with |- _ /\ _ => split end; try assumption.
+  - intros Hb.
+    match goal with X : body_raised c fail = true -> _ |- _ => specialize (X Hb); rename X into HX end.
+    repeat match type of HX with (_ && _) = true => apply andb_true_iff in HX; destruct HX as [HX ?] end.
+    repeat match goal with X : implb ?a ?b = true |- _ => pose proof (implb_elim a b X); clear X end.
+    repeat split; assumption.
+  - intros Hq.
+    match goal with X : fin_quiet c ff = true -> (_ && _) = true |- _ => specialize (X Hq); rename X into HX end.
+    repeat match type of HX with (_ && _) = true => apply andb_true_iff in HX; destruct HX as [HX ?] end.
+    repeat match goal with X : implb ?a ?b = true |- _ => pose proof (implb_elim a b X); clear X end.
+    repeat split; assumption.
 Qed.
 
 (* a failure inside `finally` (audit 3, item 13): whenever the step at p - the log file, the
@@ -212,6 +243,32 @@ Example clean_run_appends_obsm :
 Proof. vm_compute. reflexivity. Qed.
 
 (* readable consequences of failed_run_ok *)
+(* a step of `finally` that is not executed, or none: the same run *)
+Lemma fin_quiet_same : forall c bf ff, fin_quiet c ff = true -> run_mapping c bf ff = run_mapping c bf None.
+Proof. intros [[] [] [] [] [] [] [] []] [[]|] [[]|]; vm_compute; intros H; try reflexivity; discriminate H. Qed.
+Lemma failed_run_ok_quiet : forall c bf ff, failed_run_ok c bf ff = true -> fin_quiet c ff = true.
+Proof. intros [[] [] [] [] [] [] [] []] [[]|] [[]|]; vm_compute; intros H; try reflexivity; discriminate H. Qed.
+
+Lemma failed_run_unfold0 : forall c fail, failed_run_ok c fail None = true ->
+  let tr := fst (run_mapping c fail None) in
+  snd (run_mapping c fail None) = true /\ has_eff 19 tr = true /\ has_eff 11 tr = false /\
+  has_eff 13 tr = true /\ (has_log_path c = true -> has_eff 16 tr = true) /\
+  (forall ks, json_keys tr = Some ks -> has_key KResults ks = false /\
+      forall k, has_key k ks = true <-> has_key k (finally_keys c) = true) /\
+  (has_json c = true -> exists ks, json_keys tr = Some ks) /\
+  (forall ks b, hdf5_obs tr = Some (ks, b) -> b = false /\ has_key KResults ks = false /\
+      forall k, has_key k ks = true <-> has_key k (finally_keys c) = true) /\
+  (has_hdf5 c = true -> exists ks, hdf5_obs tr = Some (ks, false)).
+Proof.
+  intros [[] [] [] [] [] [] [] []] [[]|]; vm_compute; intros H; try discriminate H;
+    repeat split; intros; try discriminate; try congruence;
+    try (eexists; reflexivity);
+    repeat match goal with
+    | H : Some _ = Some _ |- _ => inversion H; subst; clear H
+    | k : key |- _ => destruct k
+    end; try reflexivity; try discriminate; try congruence.
+Qed.
+
 Lemma failed_run_unfold : forall c fail ff, failed_run_ok c fail ff = true ->
   let tr := fst (run_mapping c fail ff) in
   snd (run_mapping c fail ff) = true /\ has_eff 19 tr = true /\ has_eff 11 tr = false /\
@@ -223,11 +280,7 @@ Lemma failed_run_unfold : forall c fail ff, failed_run_ok c fail ff = true ->
       forall k, has_key k ks = true <-> has_key k (finally_keys c) = true) /\
   (has_hdf5 c = true -> exists ks, hdf5_obs tr = Some (ks, false)).
 Proof.
-  intros [[] [] [] [] [] [] [] []] [[]|] [[]|]; vm_compute; intros H; try discriminate H;
-    repeat split; intros; try discriminate; try congruence;
-    try (eexists; reflexivity);
-    repeat match goal with
-    | H : Some _ = Some _ |- _ => inversion H; subst; clear H
-    | k : key |- _ => destruct k
-    end; try reflexivity; try discriminate; try congruence.
+  intros c fail ff H. pose proof (failed_run_ok_quiet c fail ff H) as Hq.
+  unfold failed_run_ok in H. rewrite (fin_quiet_same c fail ff Hq) in *.
+  exact (failed_run_unfold0 c fail H).
 Qed.
